@@ -10,6 +10,7 @@ import (
 	"os"
 	"path/filepath"
 	"regexp"
+	"sort"
 	"strings"
 )
 
@@ -28,28 +29,105 @@ type srcReplace struct {
 	recvType, name, target string
 }
 
-// rewriteForNative returns virtual path -> rewritten temp file for the replaced functions defined in dir.
+// rewriteForNative returns virtual path -> rewritten temp file for the replaced functions defined in the harness
+// package (dir) and, through exported hook variables, in other packages of the repository module.
 func rewriteForNative(tmp, dir, pkgPath string, replaces map[string]string) (map[string]string, []string) {
 	var todo []srcReplace
 	var skipped []string
+	other := map[string][]srcReplace{} // package path -> replacements
 	for x, y := range replaces {
 		if mm := methRe.FindStringSubmatch(x); mm != nil {
 			if mm[1] == pkgPath {
 				todo = append(todo, srcReplace{recvType: mm[2], name: mm[3], target: y})
-			} else if strings.HasPrefix(mm[1], "github.com/kubewharf/") {
-				skipped = append(skipped, x)
+			} else if strings.HasPrefix(mm[1], repoModule+"/") {
+				other[mm[1]] = append(other[mm[1]], srcReplace{recvType: mm[2], name: mm[3], target: y})
 			}
 			continue
 		}
 		if mm := funcRe.FindStringSubmatch(x); mm != nil {
 			if mm[1] == pkgPath {
 				todo = append(todo, srcReplace{name: mm[2], target: y})
-			} else if strings.HasPrefix(mm[1], "github.com/kubewharf/") {
-				skipped = append(skipped, x)
+			} else if strings.HasPrefix(mm[1], repoModule+"/") {
+				other[mm[1]] = append(other[mm[1]], srcReplace{name: mm[2], target: y})
 			}
 		}
 	}
 	out := map[string]string{}
+	// other packages: X is renamed X_verifOrig; a forwarding X calls the exported hook variable when set
+	var hookSrc strings.Builder
+	nImp := 0
+	var opkgs []string
+	for op := range other {
+		opkgs = append(opkgs, op)
+	}
+	sort.Strings(opkgs)
+	var hookImports, hookAssigns []string
+	for _, op := range opkgs {
+		odir := filepath.Join(repoRoot, strings.TrimPrefix(op, repoModule+"/"))
+		nImp++
+		alias := fmt.Sprintf("verifhooked%d", nImp)
+		hookImports = append(hookImports, fmt.Sprintf("\t%s %q", alias, op))
+		ofiles, _ := filepath.Glob(filepath.Join(odir, "*.go"))
+		for _, f := range ofiles {
+			if strings.HasSuffix(f, "_test.go") {
+				continue
+			}
+			fset := token.NewFileSet()
+			af, err := parser.ParseFile(fset, f, nil, parser.ParseComments)
+			if err != nil {
+				continue
+			}
+			var extra []string
+			changed := false
+			for _, d := range af.Decls {
+				fd, ok := d.(*ast.FuncDecl)
+				if !ok {
+					continue
+				}
+				for _, r := range other[op] {
+					if fd.Name.Name != r.name || recvTypeName(fd) != r.recvType {
+						continue
+					}
+					hook := "VerifHook_" + r.recvType + "_" + r.name
+					extra = append(extra, hookForwarder(fset, fd, hook))
+					hookAssigns = append(hookAssigns, fmt.Sprintf("\t%s.%s = %s", alias, hook, r.target))
+					fd.Name.Name = r.name + "_verifOrig"
+					changed = true
+				}
+			}
+			if !changed {
+				continue
+			}
+			var buf bytes.Buffer
+			printer.Fprint(&buf, fset, af)
+			buf.WriteString("\n")
+			for _, e := range extra {
+				buf.WriteString(e)
+				buf.WriteString("\n")
+			}
+			tf := filepath.Join(tmp, fmt.Sprintf("rwo%d_%s", nImp, filepath.Base(f)))
+			os.WriteFile(tf, buf.Bytes(), 0644)
+			out[f] = tf
+		}
+	}
+	if len(hookAssigns) > 0 {
+		pkgName := filepath.Base(dir)
+		if fs, _ := filepath.Glob(filepath.Join(dir, "*.go")); len(fs) > 0 {
+			for _, f := range fs {
+				if strings.HasSuffix(f, "_test.go") {
+					continue
+				}
+				if af, err := parser.ParseFile(token.NewFileSet(), f, nil, parser.PackageClauseOnly); err == nil {
+					pkgName = af.Name.Name
+					break
+				}
+			}
+		}
+		fmt.Fprintf(&hookSrc, "//go:build verif\n\npackage %s\n\nimport (\n%s\n)\n\nfunc init() {\n%s\n}\n", pkgName, strings.Join(hookImports, "\n"), strings.Join(hookAssigns, "\n"))
+		hf := filepath.Join(tmp, "hooks.go")
+		os.WriteFile(hf, []byte(hookSrc.String()), 0644)
+		out[filepath.Join(dir, "zz_verif_hooks.go")] = hf
+	}
 	if len(todo) == 0 {
 		return out, skipped
 	}
@@ -107,6 +185,84 @@ func rewriteForNative(tmp, dir, pkgPath string, replaces map[string]string) (map
 		out[f] = tf
 	}
 	return out, skipped
+}
+
+func recvTypeName(fd *ast.FuncDecl) string {
+	if fd.Recv != nil && len(fd.Recv.List) == 1 {
+		t := fd.Recv.List[0].Type
+		if st, ok := t.(*ast.StarExpr); ok {
+			t = st.X
+		}
+		if id, ok := t.(*ast.Ident); ok {
+			return id.Name
+		}
+	}
+	return ""
+}
+
+// hookForwarder: `var Hook func(recv, params) results` plus the forwarding function that calls the hook when set and
+// the renamed original otherwise.
+func hookForwarder(fset *token.FileSet, fd *ast.FuncDecl, hook string) string {
+	var sig, params, callArgs, origArgs []string
+	recvDecl := ""
+	if fd.Recv != nil && len(fd.Recv.List) == 1 {
+		rt := exprStr(fset, fd.Recv.List[0].Type)
+		sig = append(sig, rt)
+		recvDecl = "(verifRecv " + rt + ") "
+		callArgs = append(callArgs, "verifRecv")
+	}
+	n := 0
+	if fd.Type.Params != nil {
+		for _, f := range fd.Type.Params.List {
+			cnt := len(f.Names)
+			if cnt == 0 {
+				cnt = 1
+			}
+			for i := 0; i < cnt; i++ {
+				name := fmt.Sprintf("verifP%d", n)
+				ts := exprStr(fset, f.Type)
+				params = append(params, name+" "+ts)
+				if strings.HasPrefix(ts, "...") {
+					sig = append(sig, "[]"+strings.TrimPrefix(ts, "..."))
+					callArgs = append(callArgs, name)
+					origArgs = append(origArgs, name+"...")
+				} else {
+					sig = append(sig, ts)
+					callArgs = append(callArgs, name)
+					origArgs = append(origArgs, name)
+				}
+				n++
+			}
+		}
+	}
+	var results []string
+	if fd.Type.Results != nil {
+		for _, f := range fd.Type.Results.List {
+			cnt := len(f.Names)
+			if cnt == 0 {
+				cnt = 1
+			}
+			for i := 0; i < cnt; i++ {
+				results = append(results, exprStr(fset, f.Type))
+			}
+		}
+	}
+	res := ""
+	ret := ""
+	if len(results) > 0 {
+		res = " (" + strings.Join(results, ", ") + ")"
+		ret = "return "
+	}
+	orig := fd.Name.Name + "_verifOrig"
+	if recvDecl != "" {
+		orig = "verifRecv." + orig
+	}
+	tail := "\n\t\treturn"
+	if ret != "" {
+		tail = ""
+	}
+	return fmt.Sprintf("var %s func(%s)%s\n\nfunc %s%s(%s)%s {\n\tif %s != nil {\n\t\t%s%s(%s)%s\n\t}\n\t%s%s(%s)\n}\n",
+		hook, strings.Join(sig, ", "), res, recvDecl, fd.Name.Name, strings.Join(params, ", "), res, hook, ret, hook, strings.Join(callArgs, ", "), tail, ret, orig, strings.Join(origArgs, ", "))
 }
 
 func exprStr(fset *token.FileSet, e ast.Expr) string {
